@@ -53,7 +53,954 @@ Lemma atneg_app2_2 p x y : atneg (p ++ [x; y]) 2 = x.
 Proof. unfold atneg. rewrite app_length. simpl. replace (length p + 2 - 2)%nat with (length p) by lia.
   rewrite app_nth2 by lia. now rewrite Nat.sub_diag. Qed.
 
+Lemma firstn_app_exact' {T} (p q : list T) n : n = length p -> firstn n (p ++ q) = p.
+Proof. intros ->. rewrite firstn_app, Nat.sub_diag, firstn_all. simpl. now rewrite app_nil_r. Qed.
+Lemma skipn_app_exact' {T} (p q : list T) n : n = length p -> skipn n (p ++ q) = q.
+Proof. intros ->. rewrite skipn_app, Nat.sub_diag, skipn_all. reflexivity. Qed.
 Lemma firstn_app_exact {T} (p q : list T) : firstn (length p) (p ++ q) = p.
 Proof. rewrite firstn_app, Nat.sub_diag, firstn_all. simpl. now rewrite app_nil_r. Qed.
 Lemma skipn_app_exact {T} (p q : list T) : skipn (length p) (p ++ q) = q.
 Proof. rewrite skipn_app, Nat.sub_diag, skipn_all. reflexivity. Qed.
+
+(* ====================================================================== *)
+(*  shape_matmul = NumPy's rule, every rank >= 1                            *)
+(* ====================================================================== *)
+
+Lemma np_axes_length a : forall b r, np_axes a b = Some r -> length r = length a /\ length a = length b.
+Proof.
+  induction a as [|x a IH]; intros [|y b] r H; simpl in H; try discriminate.
+  - injection H as <-. split; reflexivity.
+  - destruct ((x =? y) || (x =? 1) || (y =? 1)); [|discriminate].
+    destruct (np_axes a b) as [r'|] eqn:E; simpl in H; [|discriminate]. injection H as <-.
+    destruct (IH b r' E) as [H1 H2]. simpl. split; congruence.
+Qed.
+
+Lemma np_broadcast2_length a b r : np_broadcast2 a b = Some r -> length r = Nat.max (length a) (length b).
+Proof.
+  unfold np_broadcast2. intros H. apply np_axes_length in H as [H _].
+  rewrite H. apply pad_to_length. lia.
+Qed.
+
+Lemma np_broadcast2_nil_l b : pos b -> np_broadcast2 [] b = Some b.
+Proof. intros Hb. rewrite <- broadcast_shape2_np by (assumption || constructor). apply broadcast_shape2_nil_l. Qed.
+Lemma np_broadcast2_nil_r a : pos a -> np_broadcast2 a [] = Some a.
+Proof. intros Ha. rewrite <- broadcast_shape2_np by (assumption || constructor). apply broadcast_shape2_nil_r. Qed.
+
+Lemma batch_of_app2 p x y : batch_of (p ++ [x; y]) = p.
+Proof.
+  unfold batch_of. rewrite app_length. simpl.
+  replace (length p + 2 =? 1)%nat with false by (symmetry; apply Nat.eqb_neq; lia).
+  replace (length p + 2 - 2)%nat with (length p) by lia. apply firstn_app_exact.
+Qed.
+
+Theorem shape_matmul_spec a b : (1 <= length a)%nat -> (1 <= length b)%nat -> pos a -> pos b ->
+  shape_matmul a b = np_matmul_shape a b.
+Proof.
+  intros La Lb Pa Pb.
+  destruct (Nat.eq_dec (length a) 1) as [Ea|Ea]; destruct (Nat.eq_dec (length b) 1) as [Eb|Eb].
+  - (* 1-d x 1-d *)
+    destruct a as [|k [|? ?]]; try discriminate. destruct b as [|k' [|? ?]]; try discriminate.
+    unfold shape_matmul, np_matmul_shape. cbn. destruct (k =? k'); reflexivity.
+  - (* 1-d x n-d *)
+    destruct a as [|k [|? ?]]; try discriminate.
+    destruct (exists_last2 b) as [pb [k' [m E]]]; [lia|]. subst b.
+    apply pos_app in Pb as [Ppb _].
+    unfold shape_matmul, np_matmul_shape.
+    rewrite batch_of_app2. change (batch_of [k]) with (@nil Z).
+    rewrite broadcast_shape2_nil_l.
+    rewrite atneg_app2_2. change (atneg [k] 1) with k.
+    rewrite app_length. cbn [length].
+    replace (length pb + 2 =? 1)%nat with false by (symmetry; apply Nat.eqb_neq; lia).
+    change (1 =? 1)%nat with true. cbn [andb orb].
+    replace (2 <=? length pb + 2)%nat with true by (symmetry; apply Nat.leb_le; lia).
+    change (2 <=? 1)%nat with false. cbn [andb].
+    change (split_last2 [1; k]) with (Some (@nil Z, 1, k)).
+    rewrite split_last2_app. rewrite np_broadcast2_nil_l by assumption.
+    destruct (k =? k'); [|reflexivity].
+    replace (length pb + 2 - 2)%nat with (length pb) by lia.
+    replace (length pb + 2 - 1)%nat with (length (pb ++ [k'])) by (rewrite app_length; simpl; lia).
+    rewrite firstn_app_exact.
+    replace (pb ++ [k'; m]) with ((pb ++ [k']) ++ [m]) by (now rewrite <- app_assoc).
+    rewrite skipn_app_exact. reflexivity.
+  - (* n-d x 1-d *)
+    destruct b as [|k' [|? ?]]; try discriminate.
+    destruct (exists_last2 a) as [pa [n [k E]]]; [lia|]. subst a.
+    apply pos_app in Pa as [Ppa _].
+    unfold shape_matmul, np_matmul_shape.
+    rewrite batch_of_app2. change (batch_of [k']) with (@nil Z).
+    rewrite broadcast_shape2_nil_r.
+    rewrite atneg_app2_1. cbn [nth length].
+    rewrite app_length. cbn [length].
+    replace (length pa + 2 =? 1)%nat with false by (symmetry; apply Nat.eqb_neq; lia).
+    change (1 =? 1)%nat with true.
+    replace (2 <=? length pa + 2)%nat with true by (symmetry; apply Nat.leb_le; lia).
+    cbn [andb].
+    change (split_last2 ([k'] ++ [1])) with (Some (@nil Z, k', 1)).
+    rewrite split_last2_app. rewrite np_broadcast2_nil_r by assumption.
+    destruct (k =? k'); [|reflexivity].
+    replace (length pa + 2 - 1)%nat with (length (pa ++ [n])) by (rewrite app_length; simpl; lia).
+    replace (pa ++ [n; k]) with ((pa ++ [n]) ++ [k]) by (now rewrite <- app_assoc).
+    rewrite firstn_app_exact. rewrite app_nil_r. reflexivity.
+  - (* n-d x n-d *)
+    destruct (exists_last2 a) as [pa [n [k E]]]; [lia|]. subst a.
+    destruct (exists_last2 b) as [pb [k' [m E]]]; [lia|]. subst b.
+    apply pos_app in Pa as [Ppa _]. apply pos_app in Pb as [Ppb _].
+    unfold shape_matmul, np_matmul_shape.
+    rewrite !batch_of_app2, atneg_app2_1, !atneg_app2_2, atneg_app2_1.
+    rewrite !app_length. cbn [length].
+    replace (length pa + 2 =? 1)%nat with false by (symmetry; apply Nat.eqb_neq; lia).
+    replace (length pb + 2 =? 1)%nat with false by (symmetry; apply Nat.eqb_neq; lia).
+    cbn [andb]. rewrite !andb_false_r. rewrite !split_last2_app.
+    rewrite broadcast_shape2_np by assumption.
+    destruct (np_broadcast2 pa pb) as [bs|] eqn:Ebs; [|destruct (k =? k'); reflexivity].
+    destruct (k =? k'); [|reflexivity].
+    apply np_broadcast2_length in Ebs.
+    replace (Nat.max (length pa + 2) (length pb + 2) - 2)%nat with (length bs) by lia.
+    rewrite firstn_all. reflexivity.
+Qed.
+
+(* ====================================================================== *)
+(*  view::matmul element = the defining sum                                 *)
+(* ====================================================================== *)
+
+Lemma np_bto_idx_aligned_nth a : forall l, length l = length a ->
+  np_bto_idx_aligned a l = map (fun j => if nth j a 0 =? 1 then 0 else nth j l 0) (seq 0 (length a)).
+Proof.
+  induction a as [|x a IH]; intros [|k l] Hl; simpl in *; try discriminate; [reflexivity|].
+  f_equal. rewrite <- seq_shift, map_map. apply IH. lia.
+Qed.
+
+Lemma nth_skipn' {T} d : forall (l : list T) j x, nth j (skipn d l) x = nth (j + d) l x.
+Proof.
+  induction d as [|d IH]; intros l j x; [now rewrite Nat.add_0_r|].
+  destruct l as [|h l]; [destruct j; reflexivity|]. simpl. rewrite IH. now rewrite Nat.add_succ_r.
+Qed.
+
+Lemma fill_non_matmul_spec pa n k bi r c : (length pa <= length bi)%nat ->
+  fill_non_matmul (pa ++ [n; k]) (bi ++ [r; c]) (length (bi ++ [r; c])) = np_broadcast_to_idx pa bi.
+Proof.
+  intros Hl. unfold fill_non_matmul, np_broadcast_to_idx.
+  rewrite np_bto_idx_aligned_nth by (rewrite skipn_length; lia).
+  rewrite !app_length. cbn [length].
+  replace (length pa + 2 - 2)%nat with (length pa) by lia.
+  apply map_ext_in. intros j Hj. apply in_seq in Hj.
+  rewrite app_nth1 by lia.
+  replace (length bi + 2 - (length pa + 2))%nat with (length bi - length pa)%nat by lia.
+  rewrite app_nth1 by lia.
+  rewrite nth_skipn'. reflexivity.
+Qed.
+
+Section Laws.
+Variable A : Type.
+Variable zero : A.
+Variables add mul : A -> A -> A.
+Hypothesis add_assoc : forall x y z, add (add x y) z = add x (add y z).
+Hypothesis add_0_r : forall x, add x zero = x.
+
+Lemma fold_left_sigma t : forall x, fold_left add t x = add x (sigma A zero add t).
+Proof.
+  induction t as [|y t IH]; intros x; simpl; [now rewrite add_0_r|].
+  rewrite IH. apply add_assoc.
+Qed.
+
+(* the code's left fold from the first term is the mathematical sum *)
+Lemma fold1_sigma l : fold1 A zero add l = sigma A zero add l.
+Proof. destruct l as [|x t]; [reflexivity|]. simpl. apply fold_left_sigma. Qed.
+
+Theorem matmul_elem_spec sa sb fa fb s i :
+  (2 <= length sa)%nat -> (2 <= length sb)%nat -> pos sa -> pos sb ->
+  shape_matmul sa sb = Some s -> inb i s ->
+  matmul_elem A zero add mul sa sb fa fb i = np_matmul_elem A zero add mul sa sb fa fb i.
+Proof.
+  intros La Lb Pa Pb Hs Hi.
+  rewrite shape_matmul_spec in Hs by (assumption || lia).
+  destruct (exists_last2 sa) as [pa [n [k E]]]; [lia|]. subst sa.
+  destruct (exists_last2 sb) as [pb [k' [m E]]]; [lia|]. subst sb.
+  unfold np_matmul_shape in Hs. rewrite !app_length in Hs. cbn [length] in Hs.
+  replace (length pa + 2 =? 1)%nat with false in Hs by (symmetry; apply Nat.eqb_neq; lia).
+  replace (length pb + 2 =? 1)%nat with false in Hs by (symmetry; apply Nat.eqb_neq; lia).
+  rewrite !split_last2_app in Hs.
+  destruct (k =? k'); [|discriminate].
+  destruct (np_broadcast2 pa pb) as [bs|] eqn:Ebs; [|discriminate].
+  injection Hs as <-.
+  apply np_broadcast2_length in Ebs.
+  pose proof (inb_length _ _ Hi) as Hli. rewrite !app_length in Hli. cbn [length] in Hli.
+  destruct (exists_last2 i) as [bi [r [c E]]]; [lia|]. subst i.
+  rewrite app_length in Hli. cbn [length] in Hli.
+  unfold matmul_elem, np_matmul_elem. rewrite !split_last2_app.
+  rewrite fold1_sigma. rewrite atneg_app2_1.
+  f_equal. apply map_ext. intros kk.
+  unfold matmul_lidx, matmul_ridx.
+  rewrite !fill_non_matmul_spec by lia.
+  rewrite atneg_app2_2, atneg_app2_1. reflexivity.
+Qed.
+
+End Laws.
+
+(* ====================================================================== *)
+(*  generic facts about the view combinators                                *)
+(* ====================================================================== *)
+
+Lemma horner_app a : forall s b t acc, length a = length s ->
+  horner acc (a ++ b) (s ++ t) = horner (horner acc a s) b t.
+Proof.
+  induction a as [|x a IH]; intros [|n s] b t acc Hl; simpl in *; try discriminate; [reflexivity|].
+  apply IH. lia.
+Qed.
+
+Lemma horner_zeros r : forall acc, horner acc (repeat 0 r) (ones r) = acc.
+Proof. induction r as [|r IH]; intros acc; simpl; [reflexivity|]. rewrite IH. lia. Qed.
+
+Lemma inb_zeros r : inb (repeat 0 r) (ones r).
+Proof. induction r; simpl; constructor; auto; lia. Qed.
+
+Lemma ones_length r : length (ones r) = r.
+Proof. apply repeat_length. Qed.
+
+Lemma pos_ones r : pos (ones r).
+Proof. induction r; simpl; constructor; auto; lia. Qed.
+
+Lemma prod_ones r : prod (ones r) = 1.
+Proof. unfold ones. induction r; cbn [repeat prod]; lia. Qed.
+
+(* reshape reads the element with the same row-major rank *)
+Lemma reshape_idx_spec src dst i j : pos src -> pos dst -> inb i dst -> inb j src ->
+  horner 0 i dst = horner 0 j src -> reshape_idx src dst i = j.
+Proof.
+  intros Ps Pd Hi Hj H. unfold reshape_idx.
+  rewrite compute_strides_eq, compute_offset_eq.
+  rewrite (horner_off _ _ Hi 0), (horner_off _ _ Hj 0) in H.
+  replace (off i (strides dst)) with (off j (strides src)) by lia.
+  rewrite <- compute_offset_eq, <- compute_strides_eq. now apply unrav_off.
+Qed.
+
+Lemma pos_no_neg1 dst : pos dst -> filter (fun d => d =? -1) dst = [].
+Proof.
+  induction 1 as [|d dst Hd _ IH]; simpl; [reflexivity|].
+  replace (d =? -1) with false by (symmetry; apply Z.eqb_neq; lia). assumption.
+Qed.
+
+Lemma reshape_numel_pos dst : dst <> [] -> pos dst -> reshape_numel dst = prod dst.
+Proof.
+  intros Hne Hp. unfold reshape_numel. destruct dst as [|d0 dst0]; [congruence|].
+  set (dst := d0 :: dst0) in *. clearbody dst. clear Hne.
+  assert (G : forall acc, fold_left (fun acc d => if d =? -1 then acc else acc * d) dst acc = acc * prod dst).
+  { induction Hp as [|d dst Hd _ IH]; intros acc; simpl; [lia|].
+    replace (d =? -1) with false by (symmetry; apply Z.eqb_neq; lia). rewrite IH. ring. }
+  rewrite G. lia.
+Qed.
+
+Lemma shape_reshape_ok src dst : dst <> [] -> pos dst -> pos src -> prod src = prod dst ->
+  shape_reshape src dst = Some dst.
+Proof.
+  intros Hne Pd Ps Hp. unfold shape_reshape.
+  rewrite pos_no_neg1 by assumption. cbn [length Nat.ltb Nat.leb Nat.eqb].
+  replace (existsb (fun d => negb (d =? -1) && (d <? 1)) dst) with false.
+  2:{ symmetry. apply not_true_is_false. intros H. apply existsb_exists in H as [d [Hin Hd]].
+      unfold pos in Pd. rewrite Forall_forall in Pd. specialize (Pd d Hin).
+      apply andb_prop in Hd as [_ Hd]. lia. }
+  rewrite reshape_numel_pos by assumption. rewrite product_eq_prod.
+  pose proof (prod_pos _ Pd) as H1.
+  replace (prod dst =? 0) with false by (symmetry; apply Z.eqb_neq; lia).
+  rewrite Hp, Z.eqb_refl. cbn [negb andb]. rewrite Z_mod_same_full. cbn [Z.eqb negb].
+  f_equal. rewrite <- (map_id dst) at 2. apply map_ext_in. intros d Hin.
+  unfold pos in Pd. rewrite Forall_forall in Pd. specialize (Pd d Hin).
+  replace (d =? -1) with false by (symmetry; apply Z.eqb_neq; lia). reflexivity.
+Qed.
+
+(* ---------- broadcasting multiply ---------- *)
+Lemma np_axes_bto_ok x : forall y z, pos x -> np_axes x y = Some z -> np_bto_ok x z = true.
+Proof.
+  induction x as [|a x IH]; intros [|b y] z Hp H; simpl in H; try discriminate.
+  - injection H as <-. reflexivity.
+  - inversion Hp as [|? ? Ha Hx]; subst.
+    destruct ((a =? b) || (a =? 1) || (b =? 1)) eqn:C; [|discriminate].
+    destruct (np_axes x y) as [z'|] eqn:E; simpl in H; [|discriminate]. injection H as <-.
+    assert (Hc : a = Z.max a b \/ a = 1).
+    { apply orb_true_iff in C as [C|C]; [apply orb_true_iff in C as [C|C]|]; apply Z.eqb_eq in C; lia. }
+    cbn [np_bto_ok]. rewrite (IH _ _ Hx E). rewrite andb_true_r.
+    apply orb_true_iff. destruct Hc as [Hc|Hc]; [left | right]; apply Z.eqb_eq; assumption.
+Qed.
+
+Lemma np_broadcast2_bto_ok a b s : pos a -> np_broadcast2 a b = Some s ->
+  np_broadcast_to_shape a s = Some s.
+Proof.
+  intros Pa H. pose proof (np_broadcast2_length _ _ _ H) as Hl.
+  unfold np_broadcast2 in H. set (n := Nat.max (length a) (length b)) in *.
+  unfold np_broadcast_to_shape.
+  replace (length a <=? length s)%nat with true by (symmetry; apply Nat.leb_le; lia).
+  cbn [andb]. unfold pad_to in H at 1.
+  rewrite <- (firstn_skipn (n - length a) (pad_to n b)) in H.
+  rewrite np_axes_app in H.
+  2:{ rewrite repeat_length, firstn_length, pad_to_length by lia. lia. }
+  destruct (np_axes (repeat 1 (n - length a)) (firstn (n - length a) (pad_to n b))) as [r1|] eqn:E1; [|discriminate].
+  destruct (np_axes a (skipn (n - length a) (pad_to n b))) as [r2|] eqn:E2; [|discriminate].
+  injection H as <-.
+  apply np_axes_length in E1 as [L1 _]. rewrite repeat_length in L1.
+  replace (length (r1 ++ r2) - length a)%nat with (length r1).
+  2:{ rewrite app_length in Hl |- *. apply np_axes_length in E2 as [L2 _]. lia. }
+  rewrite skipn_app_exact. now rewrite (np_axes_bto_ok _ _ _ Pa E2).
+Qed.
+
+Lemma broadcast_to_view_spec a s : pos a -> np_broadcast_to_shape a s = Some s ->
+  exists f, broadcast_to_view a s = Some (s, f) /\
+            forall i, inb i s -> f i = np_broadcast_to_idx a i /\ inb (np_broadcast_to_idx a i) a.
+Proof.
+  intros Pa H. unfold broadcast_to_view.
+  pose proof (shape_broadcast_to_shape a s) as G. rewrite H in G.
+  destruct (shape_broadcast_to a s) as [[d free]|] eqn:E; [|discriminate].
+  simpl in G. injection G as ->.
+  eexists. split; [reflexivity|]. intros i Hi.
+  destruct (broadcast_to_elem_spec a s s free i Pa E Hi) as (_ & G1 & G2). split; assumption.
+Qed.
+
+Section Views.
+Variable A : Type.
+Variable zero : A.
+Variables add mul : A -> A -> A.
+Hypothesis add_assoc : forall x y z, add (add x y) z = add x (add y z).
+Hypothesis add_0_r : forall x, add x zero = x.
+
+Notation view := (view A).
+
+Lemma v_mul_spec (a b : view) s : pos (vshape a) -> pos (vshape b) ->
+  np_broadcast2 (vshape a) (vshape b) = Some s ->
+  exists m, v_mul A mul a b = Some m /\ vshape m = s /\
+    forall i, inb i s ->
+      vat m i = mul (vat a (np_broadcast_to_idx (vshape a) i)) (vat b (np_broadcast_to_idx (vshape b) i))
+      /\ inb (np_broadcast_to_idx (vshape a) i) (vshape a) /\ inb (np_broadcast_to_idx (vshape b) i) (vshape b).
+Proof.
+  intros Pa Pb H. unfold v_mul. rewrite broadcast_shape2_np by assumption. rewrite H.
+  pose proof (np_broadcast2_bto_ok _ _ _ Pa H) as Ha.
+  assert (Hc : np_broadcast2 (vshape b) (vshape a) = Some s).
+  { rewrite <- broadcast_shape2_np by assumption. rewrite broadcast_shape2_comm.
+    now rewrite broadcast_shape2_np by assumption. }
+  pose proof (np_broadcast2_bto_ok _ _ _ Pb Hc) as Hb.
+  destruct (broadcast_to_view_spec _ _ Pa Ha) as [fa [Ea Fa]].
+  destruct (broadcast_to_view_spec _ _ Pb Hb) as [fb [Eb Fb]].
+  rewrite Ea, Eb. eexists. split; [reflexivity|]. split; [reflexivity|].
+  intros i Hi. cbn [vat]. destruct (Fa i Hi) as [-> Ia]. destruct (Fb i Hi) as [-> Ib]. auto.
+Qed.
+
+Lemma lex_enum_1 K : lex_enum [K] = map (fun k => [k]) (zrange K).
+Proof.
+  cbn [lex_enum].
+  induction (zrange K) as [|k l IH]; [reflexivity|]. simpl. now f_equal.
+Qed.
+
+(* summing the last axis: element i is the sum over k = 0..K-1 of the elements (i,k) *)
+Lemma v_sum_last1_spec (v : view) p K : vshape v = p ++ [K] ->
+  vshape (v_sum_last A zero add 1 v) = p /\
+  forall i, vat (v_sum_last A zero add 1 v) i = sigma A zero add (map (fun k => vat v (i ++ [k])) (zrange K)).
+Proof.
+  intros E. unfold v_sum_last. cbn [vshape vat]. rewrite E, app_length. cbn [length].
+  replace (length p + 1 - 1)%nat with (length p) by lia.
+  rewrite firstn_app_exact, skipn_app_exact. split; [reflexivity|].
+  intros i. rewrite (fold1_sigma A zero add add_assoc add_0_r). rewrite lex_enum_1, map_map. reflexivity.
+Qed.
+
+End Views.
+
+(* ====================================================================== *)
+(*  more index facts                                                        *)
+(* ====================================================================== *)
+
+Lemma in_zrange k K : In k (zrange K) -> 0 <= k < K.
+Proof. unfold zrange. intros H. apply in_zs in H. lia. Qed.
+
+Lemma np_axes_refl t : np_axes t t = Some t.
+Proof.
+  induction t as [|x t IH]; simpl; [reflexivity|]. rewrite Z.eqb_refl, IH. simpl. now rewrite Z.max_id.
+Qed.
+
+Lemma pad_to_app n a t : (length a <= n)%nat -> pad_to (n + length t) (a ++ t) = pad_to n a ++ t.
+Proof.
+  intros H. unfold pad_to. rewrite app_length.
+  replace (n + length t - (length a + length t))%nat with (n - length a)%nat by lia.
+  now rewrite app_assoc.
+Qed.
+
+(* a common trailing part survives broadcasting *)
+Lemma np_broadcast2_app_common a b t bs : np_broadcast2 a b = Some bs ->
+  np_broadcast2 (a ++ t) (b ++ t) = Some (bs ++ t).
+Proof.
+  unfold np_broadcast2. intros H. rewrite !app_length.
+  replace (Nat.max (length a + length t) (length b + length t)) with (Nat.max (length a) (length b) + length t)%nat by lia.
+  rewrite !pad_to_app by lia.
+  rewrite np_axes_app by (rewrite !pad_to_length; lia).
+  rewrite H, np_axes_refl. reflexivity.
+Qed.
+
+Lemma np_bto_idx_aligned_app x1 : forall l1 x2 l2, length x1 = length l1 ->
+  np_bto_idx_aligned (x1 ++ x2) (l1 ++ l2) = np_bto_idx_aligned x1 l1 ++ np_bto_idx_aligned x2 l2.
+Proof.
+  induction x1 as [|x x1 IH]; intros [|k l1] x2 l2 Hl; simpl in *; try discriminate; [reflexivity|].
+  f_equal. apply IH. lia.
+Qed.
+
+Lemma np_bto_idx_aligned_inb x : forall i, inb i x -> np_bto_idx_aligned x i = i.
+Proof.
+  induction x as [|n x IH]; intros i H; inversion H; subst; simpl; [reflexivity|].
+  rewrite IH by assumption. destruct (Z.eqb_spec n 1); [f_equal; lia | reflexivity].
+Qed.
+
+(* the trailing coordinate of an operand whose last extent is the common K is passed through *)
+Lemma np_broadcast_to_idx_snoc pa K i k : (length pa <= length i)%nat -> 0 <= k < K ->
+  np_broadcast_to_idx (pa ++ [K]) (i ++ [k]) = np_broadcast_to_idx pa i ++ [k].
+Proof.
+  intros Hl Hk. unfold np_broadcast_to_idx. rewrite !app_length. cbn [length].
+  replace (length i + 1 - (length pa + 1))%nat with (length i - length pa)%nat by lia.
+  rewrite skipn_app. replace (length i - length pa - length i)%nat with 0%nat by lia. cbn [skipn].
+  rewrite np_bto_idx_aligned_app by (rewrite skipn_length; lia).
+  f_equal. cbn. destruct (Z.eqb_spec K 1); [f_equal; lia | reflexivity].
+Qed.
+
+(* an operand that provides the trailing axes of the result exactly reads its own coordinates *)
+Lemma np_broadcast_to_idx_suffix a pre i : inb i a ->
+  np_broadcast_to_idx a (pre ++ i) = i.
+Proof.
+  intros H. unfold np_broadcast_to_idx. rewrite app_length. rewrite (inb_length _ _ H).
+  replace (length pre + length a - length a)%nat with (length pre) by lia.
+  rewrite skipn_app_exact. now apply np_bto_idx_aligned_inb.
+Qed.
+
+Lemma removelast_snoc {T} (p : list T) x : removelast (p ++ [x]) = p.
+Proof. apply removelast_last. Qed.
+
+Lemma inb_snoc i s k K : inb i s -> 0 <= k < K -> inb (i ++ [k]) (s ++ [K]).
+Proof. intros H Hk. apply inb_app; [assumption|]. constructor; [lia | constructor]. Qed.
+
+Lemma split_last1_inv l p x : split_last1 l = Some (p, x) -> l = p ++ [x].
+Proof.
+  intros H. destruct (exists_last1 l) as [q [y E]]; [destruct l; [discriminate | simpl; lia]|].
+  subst l. rewrite split_last1_app in H. now injection H as -> ->.
+Qed.
+Lemma split_last2_inv l p x y : split_last2 l = Some (p, x, y) -> l = p ++ [x; y].
+Proof.
+  intros H. destruct (exists_last2 l) as [q [u [v E]]].
+  { destruct l as [|? [|? ?]]; try discriminate; simpl; lia. }
+  subst l. rewrite split_last2_app in H. now injection H as -> -> ->.
+Qed.
+
+Lemma np_bto_idx_aligned_ones r : forall l, length l = r -> np_bto_idx_aligned (ones r) l = repeat 0 r.
+Proof. induction r as [|r IH]; intros [|k l] Hl; simpl in *; try discriminate; [reflexivity|]. f_equal. apply IH. lia. Qed.
+
+(* (pa, 1..1) against pb: the ones stretch to pb, pa is kept *)
+Lemma np_broadcast2_ones_mid pa pb : pos pa -> pos pb ->
+  np_broadcast2 (pa ++ ones (length pb)) pb = Some (pa ++ pb).
+Proof.
+  intros Pa Pb. unfold np_broadcast2. rewrite app_length, ones_length.
+  replace (Nat.max (length pa + length pb) (length pb)) with (length pa + length pb)%nat by lia.
+  unfold pad_to. rewrite app_length, ones_length.
+  replace (length pa + length pb - (length pa + length pb))%nat with 0%nat by lia.
+  replace (length pa + length pb - length pb)%nat with (length pa) by lia. cbn [repeat app].
+  rewrite np_axes_app by (now rewrite repeat_length).
+  rewrite np_axes_ones_r by assumption. unfold ones. rewrite np_axes_ones_l by assumption. reflexivity.
+Qed.
+
+(* ---------- diagonal index: the code's fill loop is "place the two diagonal coordinates, copy the rest" ---------- *)
+Lemma diag_fill_place a1 a2 d off : a1 <> a2 -> 0 <= off -> forall axes rest,
+  diag_fill axes a1 a2 rest d off = place_from axes [a1; a2] rest [d + Z.max 0 (- off); d + Z.max 0 off].
+Proof.
+  intros Hne Hoff. induction axes as [|t axes IH]; intros rest; [reflexivity|].
+  cbn [diag_fill place_from index_of].
+  destruct (Nat.eqb_spec t a2) as [E2|N2].
+  - subst t. destruct (Nat.eqb_spec a2 a1) as [E|_]; [congruence|].
+    cbn [option_map nth]. rewrite IH. f_equal. lia.
+  - destruct (Nat.eqb_spec t a1) as [E1|N1].
+    + cbn [nth]. rewrite IH. f_equal. lia.
+    + cbn [option_map]. destruct rest as [|x rest]; rewrite IH; reflexivity.
+Qed.
+
+Lemma remove_axes_free s a1 a2 : remove_axes s a1 a2 = extents_at s (free_axes_of (length s) [a1; a2]).
+Proof.
+  unfold remove_axes, extents_at, free_axes_of. f_equal. apply filter_ext. intros i.
+  cbn [existsb]. now rewrite orb_false_r.
+Qed.
+
+Lemma diag_extent_np s off a1 a2 : 0 <= off -> 0 <= diag_extent s off a1 a2 ->
+  diag_extent s off a1 a2 = np_diag_len s off a1 a2.
+Proof.
+  unfold diag_extent, np_diag_len. intros Hoff.
+  replace (off <? 0) with false by (symmetry; apply Z.ltb_ge; lia).
+  replace (0 <=? off) with true by (symmetry; apply Z.leb_le; lia).
+  destruct (Z.ltb_spec 0 off); lia.
+Qed.
+
+Lemma norm_axis_nat n a : (a < n)%nat -> norm_axis n (Z.of_nat a) = Some a.
+Proof.
+  intros H. unfold norm_axis.
+  replace (Z.of_nat a <? - Z.of_nat n) with false by (symmetry; apply Z.ltb_ge; lia).
+  replace (Z.of_nat n <=? Z.of_nat a) with false by (symmetry; apply Z.leb_gt; lia).
+  replace (Z.of_nat a <? 0) with false by (symmetry; apply Z.ltb_ge; lia).
+  cbn [orb]. now rewrite Nat2Z.id.
+Qed.
+Lemma norm_axis_neg n a : (a < n)%nat -> norm_axis n (Z.of_nat a - Z.of_nat n) = Some a.
+Proof.
+  intros H. unfold norm_axis.
+  replace (Z.of_nat a - Z.of_nat n <? - Z.of_nat n) with false by (symmetry; apply Z.ltb_ge; lia).
+  replace (Z.of_nat n <=? Z.of_nat a - Z.of_nat n) with false by (symmetry; apply Z.leb_gt; lia).
+  replace (Z.of_nat a - Z.of_nat n <? 0) with true by (symmetry; apply Z.ltb_lt; lia).
+  cbn [orb]. f_equal. lia.
+Qed.
+
+Lemma nth_map_zrange {T} (g : Z -> T) P p dflt : 0 <= p < P -> nth (Z.to_nat p) (map g (zrange P)) dflt = g p.
+Proof.
+  intros H. unfold zrange, zs. rewrite map_map.
+  rewrite nth_indep with (d' := g (Z.of_nat 0)) by (rewrite map_length, seq_length; lia).
+  rewrite (map_nth (fun k => g (Z.of_nat k))). rewrite seq_nth by lia. f_equal. lia.
+Qed.
+
+(* the p-th element in C order is the one at the unravelled index *)
+Lemma nth_lex_enum s p : pos s -> 0 <= p < prod s -> nth (Z.to_nat p) (lex_enum s) [] = compute_indices p s.
+Proof.
+  intros Hp H. rewrite <- (ndindex_is_lex_enum s Hp). unfold ndindex_size. rewrite product_eq_prod.
+  now rewrite nth_map_zrange.
+Qed.
+
+Lemma match_len2 {T} (sb : list Z) (x y : T) : (2 <= length sb)%nat ->
+  match sb with | [_] => x | _ => y end = y.
+Proof. destruct sb as [|? [|? ?]]; simpl; intros; try lia; reflexivity. Qed.
+
+Lemma np_dot_shape_nd pa K pb K' N :
+  np_dot_shape (pa ++ [K]) (pb ++ [K'; N]) = if K =? K' then Some (pa ++ pb ++ [N]) else None.
+Proof.
+  unfold np_dot_shape. rewrite split_last1_app.
+  pose proof (split_last2_app pb K' N) as Hs.
+  assert (Hl : (2 <= length (pb ++ [K'; N]))%nat) by (rewrite app_length; simpl; lia).
+  destruct (pb ++ [K'; N]) as [|b0 [|b1 t]]; simpl in Hl; try lia.
+  rewrite Hs. reflexivity.
+Qed.
+
+(* ---------- tile ---------- *)
+Lemma tile_shape_rev_ones s : tile_shape_rev s (ones (length s)) = s.
+Proof. induction s as [|x s IH]; [reflexivity|]. cbn [length ones repeat tile_shape_rev]. fold (ones (length s)). rewrite IH. f_equal. lia. Qed.
+
+Lemma rev_ones r : rev (ones r) = ones r.
+Proof. apply rev_repeat. Qed.
+
+Lemma shape_tile_ones s : shape_tile s (ones (length s)) = s.
+Proof. unfold shape_tile. rewrite rev_ones, <- (rev_length s), tile_shape_rev_ones. apply rev_involutive. Qed.
+
+Lemma shape_tile_last pa K N : shape_tile (pa ++ [K]) (ones (length pa) ++ [N]) = pa ++ [K * N].
+Proof.
+  unfold shape_tile. rewrite !rev_app_distr, rev_ones. cbn [rev app tile_shape_rev].
+  rewrite <- (rev_length pa), tile_shape_rev_ones. cbn [rev]. now rewrite rev_involutive.
+Qed.
+
+Lemma tile_idx_rev_inb s : forall i, inb i s -> tile_idx_rev s i = i.
+Proof.
+  induction s as [|n s IH]; intros i H; inversion H; subst; [reflexivity|].
+  cbn [tile_idx_rev]. rewrite IH by assumption. f_equal. apply Z.mod_small; lia.
+Qed.
+
+Lemma tile_idx_inb s i : inb i s -> tile_idx s i = i.
+Proof. intros H. unfold tile_idx. rewrite tile_idx_rev_inb by (now apply inb_rev). apply rev_involutive. Qed.
+
+Lemma tile_idx_last pa K ia q : inb ia pa -> tile_idx (pa ++ [K]) (ia ++ [q]) = ia ++ [q mod K].
+Proof.
+  intros H. unfold tile_idx. rewrite !rev_app_distr. cbn [rev app tile_idx_rev].
+  rewrite tile_idx_rev_inb by (now apply inb_rev). cbn [rev]. now rewrite rev_involutive.
+Qed.
+
+(* ---------- transpose with the last two axes exchanged ---------- *)
+Lemma upd_app {T} (pre : list T) x r h : upd (pre ++ x :: r) (length pre) h = pre ++ h :: r.
+Proof. induction pre as [|y pre IH]; [reflexivity|]. cbn [app length upd]. now rewrite IH. Qed.
+
+Lemma combine_app {T U} (a1 : list T) : forall (b1 : list U) a2 b2, length a1 = length b1 ->
+  combine (a1 ++ a2) (b1 ++ b2) = combine a1 b1 ++ combine a2 b2.
+Proof.
+  induction a1 as [|x a1 IH]; intros [|y b1] a2 b2 H; simpl in *; try discriminate; [reflexivity|].
+  f_equal. apply IH. lia.
+Qed.
+
+Lemma fold_upd_prefix (l : list Z) : forall pre junk, (length l <= length junk)%nat ->
+  fold_left (fun ret p => upd ret (snd p) (fst p)) (combine l (seq (length pre) (length l))) (pre ++ junk)
+  = pre ++ l ++ skipn (length l) junk.
+Proof.
+  induction l as [|h l IH]; intros pre junk Hl; [reflexivity|].
+  destruct junk as [|j junk]; [simpl in Hl; lia|].
+  cbn [length seq combine fold_left fst snd]. rewrite upd_app.
+  replace (pre ++ h :: junk) with ((pre ++ [h]) ++ junk) by (now rewrite <- app_assoc).
+  replace (S (length pre)) with (length (pre ++ [h])) by (rewrite app_length; simpl; lia).
+  rewrite IH by (simpl in Hl; lia). rewrite <- app_assoc. reflexivity.
+Qed.
+
+Lemma scatter_swap l x y : scatter (l ++ [x; y]) (swap_last2 (length l + 2)) = l ++ [y; x].
+Proof.
+  unfold scatter, swap_last2.
+  replace (2 <=? length l + 2)%nat with true by (symmetry; apply Nat.leb_le; lia).
+  replace (length l + 2 - 2)%nat with (length l) by lia.
+  replace (length l + 2 - 1)%nat with (S (length l)) by lia.
+  rewrite combine_app by (now rewrite seq_length). rewrite fold_left_app.
+  rewrite app_length. cbn [length].
+  pose proof (fold_upd_prefix l [] (repeat 0 (length l + 2))) as G. cbn [app length] in G.
+  rewrite G by (rewrite repeat_length; lia). clear G.
+  replace (skipn (length l) (repeat 0 (length l + 2))) with [0; 0].
+  2:{ rewrite repeat_app, skipn_app, repeat_length, Nat.sub_diag, skipn_all2 by (rewrite repeat_length; lia). reflexivity. }
+  cbn [combine fold_left fst snd].
+  replace (l ++ [0; 0]) with ((l ++ [0]) ++ [0]) by (now rewrite <- app_assoc).
+  replace (S (length l)) with (length (l ++ [0])) by (rewrite app_length; simpl; lia).
+  rewrite upd_app. rewrite <- app_assoc. cbn [app]. rewrite upd_app. reflexivity.
+Qed.
+
+Lemma map_nth_seq (l r : list Z) : map (fun i => nth i (l ++ r) 0) (seq 0 (length l)) = l.
+Proof.
+  revert r. induction l as [|x l IH]; intros r; [reflexivity|].
+  cbn [length seq map app nth]. f_equal. rewrite <- seq_shift, map_map. apply IH.
+Qed.
+
+Lemma shape_transpose_swap p x y : shape_transpose (p ++ [x; y]) (swap_last2 (length p + 2)) = p ++ [y; x].
+Proof.
+  unfold shape_transpose, swap_last2.
+  replace (2 <=? length p + 2)%nat with true by (symmetry; apply Nat.leb_le; lia).
+  replace (length p + 2 - 2)%nat with (length p) by lia.
+  replace (length p + 2 - 1)%nat with (S (length p)) by lia.
+  rewrite map_app, map_nth_seq. f_equal. cbn [map].
+  rewrite !app_nth2 by lia. replace (S (length p) - length p)%nat with 1%nat by lia. rewrite Nat.sub_diag. reflexivity.
+Qed.
+
+Section Routines.
+Variable A : Type.
+Variable zero : A.
+Variables add mul : A -> A -> A.
+Hypothesis add_assoc : forall x y z, add (add x y) z = add x (add y z).
+Hypothesis add_0_r : forall x, add x zero = x.
+
+Notation view := (view A).
+
+(* two views agree: same shape and equal elements at every in-bounds index *)
+Definition agrees (m v : view) : Prop :=
+  vshape m = vshape v /\ forall i, inb i (vshape v) -> vat m i = vat v i.
+
+(* ---------- vecdot ---------- *)
+Theorem vecdot_spec sa sb fa fb v : pos sa -> pos sb ->
+  np_vecdot A zero add mul sa sb fa fb = Some v ->
+  exists m, vecdot A zero add mul sa sb fa fb = Ok m /\ agrees m v.
+Proof.
+  intros Pa Pb H. unfold np_vecdot in H.
+  destruct (np_vecdot_shape sa sb) as [s|] eqn:Es; [|discriminate]. injection H as <-.
+  unfold np_vecdot_shape in Es.
+  destruct (split_last1 sa) as [[pa K]|] eqn:Ea; [|discriminate].
+  destruct (split_last1 sb) as [[pb K']|] eqn:Eb; [|discriminate].
+  assert (sa = pa ++ [K]) as ->.
+  { destruct (exists_last1 sa) as [p [x E]]; [destruct sa; [discriminate | simpl; lia]|].
+    subst sa. rewrite split_last1_app in Ea. now injection Ea as -> ->. }
+  assert (sb = pb ++ [K']) as ->.
+  { destruct (exists_last1 sb) as [p [x E]]; [destruct sb; [discriminate | simpl; lia]|].
+    subst sb. rewrite split_last1_app in Eb. now injection Eb as -> ->. }
+  destruct (Z.eqb_spec K K') as [<-|]; [|discriminate].
+  pose proof (np_broadcast2_length _ _ _ Es) as Hls.
+  pose proof (np_broadcast2_app_common _ _ [K] _ Es) as Hb.
+  unfold vecdot.
+  destruct (v_mul_spec A mul (View (pa ++ [K]) fa) (View (pb ++ [K]) fb) _ Pa Pb Hb) as [m [Em [Sm Fm]]].
+  rewrite Em. cbn [lift rbind].
+  eexists. split; [reflexivity|].
+  destruct (v_sum_last1_spec A zero add add_assoc add_0_r m s K Sm) as [S1 F1].
+  split; [exact S1|]. cbn [vshape vat]. intros i Hi. rewrite F1.
+  rewrite atneg_app1. f_equal. apply map_ext_in. intros k Hk. apply in_zrange in Hk.
+  destruct (Fm (i ++ [k]) (inb_snoc _ _ _ _ Hi Hk)) as [-> _]. cbn [vshape vat].
+  pose proof (inb_length _ _ Hi) as Hli.
+  rewrite !np_broadcast_to_idx_snoc by lia. rewrite !removelast_snoc. reflexivity.
+Qed.
+
+(* ---------- inner ---------- *)
+Theorem inner_spec sa sb fa fb v : pos sa -> pos sb ->
+  np_inner A zero add mul sa sb fa fb = Some v ->
+  exists m, inner A zero add mul sa sb fa fb = Ok m /\ agrees m v.
+Proof.
+  intros Pa Pb H. unfold np_inner in H.
+  destruct (np_inner_shape sa sb) as [s|] eqn:Es; [|discriminate]. injection H as <-.
+  unfold np_inner_shape in Es.
+  destruct (split_last1 sa) as [[pa K]|] eqn:Ea; [|discriminate].
+  destruct (split_last1 sb) as [[pb K']|] eqn:Eb; [|discriminate].
+  apply split_last1_inv in Ea, Eb. subst sa sb.
+  destruct (Z.eqb_spec K K') as [<-|]; [|discriminate]. injection Es as <-.
+  apply pos_app in Pa as [Ppa PK]. apply pos_app in Pb as [Ppb _].
+  unfold inner.
+  assert (Edst : inner_lhs_reshape (pa ++ [K]) (pb ++ [K]) = pa ++ ones (length pb) ++ [K]).
+  { unfold inner_lhs_reshape. rewrite !app_length. cbn [length]. rewrite atneg_app1.
+    replace (length pa + 1 - 1)%nat with (length pa) by lia. rewrite firstn_app_exact.
+    do 2 f_equal. f_equal. lia. }
+  rewrite Edst. set (dst := pa ++ ones (length pb) ++ [K]).
+  assert (Pdst : pos dst) by (unfold dst; apply pos_app; split; [assumption | apply pos_app; split; [apply pos_ones | assumption]]).
+  unfold v_reshape. cbn [vshape].
+  rewrite shape_reshape_ok.
+  2:{ unfold dst. destruct pa; discriminate || (destruct (length pb); discriminate). }
+  2: exact Pdst.
+  2: apply pos_app; split; assumption.
+  2:{ unfold dst. rewrite !prod_app, prod_ones. ring. }
+  cbn [lift rbind].
+  assert (Hb : np_broadcast2 dst (pb ++ [K]) = Some ((pa ++ pb) ++ [K])).
+  { unfold dst. rewrite app_assoc. apply np_broadcast2_app_common. now apply np_broadcast2_ones_mid. }
+  destruct (v_mul_spec A mul (View dst (fun i => fa (reshape_idx (pa ++ [K]) dst i))) (View (pb ++ [K]) fb) _ Pdst
+              (proj2 (pos_app _ _) (conj Ppb PK)) Hb) as [m [Em [Sm Fm]]].
+  cbn [vshape vat]. rewrite Em. cbn [lift rbind]. eexists. split; [reflexivity|].
+  destruct (v_sum_last1_spec A zero add add_assoc add_0_r m (pa ++ pb) K Sm) as [S1 F1].
+  split; [exact S1|]. cbn [vshape vat]. intros i Hi. rewrite F1.
+  rewrite atneg_app1. f_equal. apply map_ext_in. intros k Hk. apply in_zrange in Hk.
+  destruct (Fm (i ++ [k]) (inb_snoc _ _ _ _ Hi Hk)) as [-> _]. cbn [vshape vat].
+  rewrite app_length. cbn [length]. replace (length pa + 1 - 1)%nat with (length pa) by lia.
+  destruct (inb_app_inv _ _ _ Hi) as [Hia Hib].
+  set (ia := firstn (length pa) i) in *. set (ib := skipn (length pa) i) in *.
+  assert (Ei : i = ia ++ ib) by (symmetry; apply firstn_skipn).
+  f_equal.
+  - f_equal.
+    assert (Eb' : np_broadcast_to_idx dst (i ++ [k]) = ia ++ repeat 0 (length pb) ++ [k]).
+    { unfold np_broadcast_to_idx.
+      replace (length (i ++ [k]) - length dst)%nat with 0%nat.
+      2:{ unfold dst. rewrite (inb_length _ _ (inb_snoc _ _ _ _ Hi Hk)). rewrite !app_length, ones_length. cbn [length]. lia. }
+      cbn [skipn]. unfold dst. rewrite Ei, <- app_assoc.
+      rewrite np_bto_idx_aligned_app by (symmetry; now apply inb_length).
+      rewrite np_bto_idx_aligned_app by (rewrite ones_length; symmetry; now apply inb_length).
+      rewrite (np_bto_idx_aligned_inb _ _ Hia), np_bto_idx_aligned_ones by (now apply inb_length).
+      cbn. destruct (Z.eqb_spec K 1); [do 3 f_equal; lia | reflexivity]. }
+    rewrite Eb'. apply reshape_idx_spec.
+    + apply pos_app; split; assumption.
+    + exact Pdst.
+    + unfold dst. apply inb_app; [assumption|]. apply inb_app; [apply inb_zeros | constructor; [lia | constructor]].
+    + apply inb_snoc; assumption.
+    + unfold dst. rewrite horner_app by (now apply inb_length).
+      rewrite horner_app by (now rewrite ones_length, repeat_length).
+      rewrite horner_zeros. rewrite horner_app by (now apply inb_length). reflexivity.
+  - f_equal. rewrite Ei at 1. rewrite <- app_assoc. apply np_broadcast_to_idx_suffix.
+    apply inb_snoc; assumption.
+Qed.
+
+(* ---------- diagonal / trace (offset >= 0) ---------- *)
+Theorem diagonal_spec s f off ax1 ax2 a1 a2 v :
+  norm_axis (length s) ax1 = Some a1 -> norm_axis (length s) ax2 = Some a2 ->
+  0 <= off -> 0 <= diag_extent s off a1 a2 ->
+  np_diagonal A s f off a1 a2 = Some v ->
+  exists m, diagonal A s f off ax1 ax2 = Ok m /\ agrees m v.
+Proof.
+  intros N1 N2 Hoff He H. unfold np_diagonal in H.
+  destruct (np_diagonal_shape s off a1 a2) as [d|] eqn:Ed; [|discriminate]. injection H as <-.
+  unfold np_diagonal_shape in Ed.
+  destruct ((a1 <? length s)%nat && (a2 <? length s)%nat && negb (a1 =? a2)%nat) eqn:C; [|discriminate].
+  injection Ed as <-.
+  apply andb_prop in C as [C C3]. apply andb_prop in C as [C1 C2].
+  apply Nat.ltb_lt in C1, C2. apply negb_true_iff, Nat.eqb_neq in C3.
+  unfold diagonal. rewrite N1, N2.
+  replace (length s <? 2)%nat with false by (symmetry; apply Nat.ltb_ge; lia).
+  replace (a1 =? a2)%nat with false by (symmetry; now apply Nat.eqb_neq).
+  replace (diag_extent s off a1 a2 <? 0) with false by (symmetry; apply Z.ltb_ge; lia).
+  replace (off <? 0) with false by (symmetry; apply Z.ltb_ge; lia).
+  cbn [orb andb]. eexists. split; [reflexivity|]. split; cbn [vshape vat].
+  - unfold shape_diagonal. rewrite remove_axes_free, diag_extent_np by assumption. reflexivity.
+  - intros i _. unfold diagonal_idx, np_diagonal_idx, place. now rewrite diag_fill_place.
+Qed.
+
+Theorem trace_spec s f off ax1 ax2 a1 a2 v :
+  norm_axis (length s) ax1 = Some a1 -> norm_axis (length s) ax2 = Some a2 ->
+  0 <= off -> 1 <= diag_extent s off a1 a2 ->
+  np_trace A zero add s f off a1 a2 = Some v ->
+  exists m, trace A zero add s f off ax1 ax2 = Ok m /\ agrees m v.
+Proof.
+  intros N1 N2 Hoff He H. unfold np_trace in H.
+  destruct (np_diagonal_shape s off a1 a2) as [d|] eqn:Ed; [|discriminate]. injection H as <-.
+  destruct (diagonal_spec s f off ax1 ax2 a1 a2 _ N1 N2 Hoff ltac:(lia) ltac:(unfold np_diagonal; rewrite Ed; reflexivity))
+    as [m [Em [Sm Fm]]].
+  unfold trace. rewrite Em. cbn [rbind]. cbn [vshape vat] in Sm, Fm.
+  unfold np_diagonal_shape in Ed.
+  destruct ((a1 <? length s)%nat && (a2 <? length s)%nat && negb (a1 =? a2)%nat) eqn:C; [|discriminate].
+  injection Ed as <-. rewrite Sm, atneg_app1.
+  rewrite <- diag_extent_np by lia.
+  replace (diag_extent s off a1 a2 <=? 0) with false by (symmetry; apply Z.leb_gt; lia).
+  eexists. split; [reflexivity|].
+  rewrite <- diag_extent_np in Sm by lia.
+  destruct (v_sum_last1_spec A zero add add_assoc add_0_r m _ _ Sm) as [S1 F1].
+  split; cbn [vshape vat].
+  - rewrite S1. now rewrite removelast_snoc.
+  - intros i _. rewrite F1. f_equal. apply map_ext_in. intros k Hk.
+    (* the diagonal view's element does not depend on bounds *)
+    unfold diagonal in Em. rewrite N1, N2 in Em.
+    destruct ((length s <? 2)%nat || (a1 =? a2)%nat); [discriminate|].
+    destruct (diag_extent s off a1 a2 <? 0); [discriminate|].
+    destruct ((off <? 0) && (0 <? diag_extent s off a1 a2)); [discriminate|].
+    injection Em as <-. cbn [vat].
+    apply andb_prop in C as [_ C3]. apply negb_true_iff, Nat.eqb_neq in C3.
+    unfold diagonal_idx, np_diagonal_idx, place. rewrite removelast_snoc, last_last.
+    now rewrite diag_fill_place.
+Qed.
+
+(* ---------- outer ---------- *)
+Lemma flatten_spec s (f : list Z -> A) : pos s ->
+  exists l, v_flatten A (View s f) = Some l /\ vshape l = [prod s] /\
+    forall p, 0 <= p < prod s -> vat l [p] = flat_at A s f p.
+Proof.
+  intros Hp. unfold v_flatten, v_reshape. cbn [vshape vat]. rewrite product_eq_prod.
+  pose proof (prod_pos _ Hp) as HP.
+  rewrite shape_reshape_ok; [| discriminate | repeat constructor; lia | assumption | cbn [prod]; lia].
+  eexists. split; [reflexivity|]. split; [reflexivity|]. intros p Hr. cbn [vat]. unfold flat_at.
+  rewrite nth_lex_enum by assumption. f_equal. unfold reshape_idx. f_equal.
+  rewrite compute_strides_eq, compute_offset_eq. cbn [off strides prod]. lia.
+Qed.
+
+Theorem outer_spec sa sb fa fb : pos sa -> pos sb ->
+  exists m, outer A mul sa sb fa fb = Ok m /\ agrees m (np_outer A mul sa sb fa fb).
+Proof.
+  intros Pa Pb. unfold outer.
+  destruct (flatten_spec sa fa Pa) as [l [El [Sl Fl]]]. destruct (flatten_spec sb fb Pb) as [r [Er [Sr Fr]]].
+  rewrite El, Er. cbn [lift rbind].
+  pose proof (prod_pos _ Pa) as HP. pose proof (prod_pos _ Pb) as HQ.
+  set (P := prod sa) in *. set (Q := prod sb) in *.
+  assert (E2 : shape_reshape [P] [-1; 1] = Some [P; 1]).
+  { unfold shape_reshape, reshape_numel, product. cbn.
+    rewrite Z.mod_1_r. cbn. rewrite Z.div_1_r. destruct P; reflexivity. }
+  unfold v_reshape. rewrite Sl, E2. cbn [lift rbind].
+  assert (Hb : np_broadcast2 [P; 1] [Q] = Some [P; Q]).
+  { unfold np_broadcast2, pad_to. cbn. rewrite !orb_true_r. cbn.
+    rewrite Z.max_l by lia. replace (Z.max 1 Q) with Q by lia. reflexivity. }
+  destruct (v_mul_spec A mul (View [P; 1] (fun i => vat l (reshape_idx [P] [P; 1] i))) r [P; Q]) as [m [Em [Sm Fm]]].
+  { repeat constructor; lia. } { rewrite Sr. repeat constructor; lia. } { rewrite Sr. exact Hb. }
+  rewrite Em. cbn [lift]. eexists. split; [reflexivity|]. split; [exact Sm|].
+  cbn [np_outer vshape vat np_outer_shape]. fold P Q. intros i Hi.
+  inversion Hi as [|p ? i1 ? Hp Hi1]; subst. inversion Hi1 as [|q ? i2 ? Hq Hi2]; subst. inversion Hi2; subst.
+  destruct (Fm [p; q] Hi) as [-> _]. cbn [vshape vat nth]. rewrite Sr.
+  assert (B1 : np_broadcast_to_idx [P; 1] [p; q] = [p; 0]).
+  { unfold np_broadcast_to_idx. cbn. destruct (Z.eqb_spec P 1); [f_equal; lia | reflexivity]. }
+  assert (B2 : np_broadcast_to_idx [Q] [p; q] = [q]).
+  { unfold np_broadcast_to_idx. cbn. destruct (Z.eqb_spec Q 1); [f_equal; lia | reflexivity]. }
+  rewrite B1, B2.
+  rewrite (reshape_idx_spec [P] [P; 1] [p; 0] [p]); try (repeat constructor; lia); [|cbn; lia].
+  rewrite Fl, Fr by lia. reflexivity.
+Qed.
+
+(* ---------- dot ---------- *)
+Lemma reshape_same s i : pos s -> inb i s -> reshape_idx s s i = i.
+Proof. intros Hp Hi. now apply reshape_idx_spec. Qed.
+
+(* second operand 1-d: sum over the last axis of a *)
+Lemma dot_spec_1d pa K fa fb v : pos (pa ++ [K]) ->
+  np_dot A zero add mul (pa ++ [K]) [K] fa fb = Some v ->
+  exists m, dot A zero add mul (pa ++ [K]) [K] fa fb = Ok m /\ agrees m v.
+Proof.
+  intros Pa H. pose proof Pa as Pa'. apply pos_app in Pa' as [Ppa PK].
+  unfold np_dot, np_dot_shape in H. rewrite split_last1_app, Z.eqb_refl in H. injection H as <-.
+  unfold dot, dot_lhs_tile, dot_lhs_reshape. cbn [length Nat.ltb Nat.leb].
+  rewrite !app_length. cbn [length].
+  replace (Nat.max (length pa + 1 + 1 - 2) (length pa + 1) - (length pa + 1 - 1) - 1)%nat with 0%nat by lia.
+  replace (length pa + 1 - 1)%nat with (length pa) by lia. rewrite firstn_app_exact.
+  cbn [ones repeat app]. change (atneg [K] 1) with K.
+  replace (ones (length pa + 1)) with (ones (length (pa ++ [K]))) by (now rewrite app_length).
+  unfold v_tile, v_reshape. cbn [vshape vat]. rewrite shape_tile_ones.
+  rewrite shape_reshape_ok; [| destruct pa; discriminate | assumption | assumption | reflexivity].
+  cbn [lift rbind]. unfold v_transpose. cbn [vshape vat].
+  change (swap_last2 1) with [0%nat]. change (shape_transpose [K] [0%nat]) with [K].
+  assert (Hb : np_broadcast2 (pa ++ [K]) ([] ++ [K]) = Some (pa ++ [K])).
+  { apply np_broadcast2_app_common. now apply np_broadcast2_nil_r. }
+  cbn [app] in Hb.
+  destruct (v_mul_spec A mul (View (pa ++ [K]) (fun i => fa (tile_idx (pa ++ [K]) (reshape_idx (pa ++ [K]) (pa ++ [K]) i))))
+              (View [K] (fun i => fb (scatter i [0%nat]))) _ Pa PK Hb) as [m [Em [Sm Fm]]].
+  rewrite Em. cbn [lift rbind]. eexists. split; [reflexivity|].
+  destruct (v_sum_last1_spec A zero add add_assoc add_0_r m pa K Sm) as [S1 F1].
+  split; [exact S1|]. cbn [vshape vat]. intros i Hi. rewrite F1.
+  rewrite atneg_app1. f_equal. apply map_ext_in. intros k Hk. apply in_zrange in Hk.
+  pose proof (inb_snoc _ _ _ _ Hi Hk) as Hik.
+  destruct (Fm (i ++ [k]) Hik) as [-> _]. cbn [vshape vat].
+  pose proof (np_broadcast_to_idx_suffix (pa ++ [K]) [] (i ++ [k]) Hik) as G. cbn [app] in G. rewrite G. clear G.
+  rewrite (np_broadcast_to_idx_suffix [K] i [k]) by (constructor; [lia | constructor]).
+  rewrite reshape_same, tile_idx_inb by assumption.
+  rewrite <- (inb_length _ _ Hi), firstn_all. reflexivity.
+Qed.
+
+(* second operand at least 2-d: last axis of a with the second to last axis of b *)
+Lemma dot_spec_nd pa pb K N fa fb v : pos (pa ++ [K]) -> pos (pb ++ [K; N]) ->
+  np_dot A zero add mul (pa ++ [K]) (pb ++ [K; N]) fa fb = Some v ->
+  exists m, dot A zero add mul (pa ++ [K]) (pb ++ [K; N]) fa fb = Ok m /\ agrees m v.
+Proof.
+  intros Pa Pb H. pose proof Pa as Pa'. apply pos_app in Pa' as [Ppa PK].
+  pose proof Pb as Pb'. apply pos_app in Pb' as [Ppb PKN].
+  assert (HK : 1 <= K) by (inversion PK; lia).
+  assert (HN : 1 <= N) by (inversion PKN as [|? ? ? P2]; inversion P2; lia).
+  assert (Lsb : length (pb ++ [K; N]) = (length pb + 2)%nat) by (rewrite app_length; reflexivity).
+  unfold np_dot in H. rewrite np_dot_shape_nd, Z.eqb_refl in H. injection H as <-.
+  unfold dot, dot_lhs_tile, dot_lhs_reshape.
+  rewrite Lsb. rewrite !app_length. cbn [length].
+  replace (1 <? length pb + 2)%nat with true by (symmetry; apply Nat.ltb_lt; lia).
+  replace (length pa + 1 - 1)%nat with (length pa) by lia. rewrite firstn_app_exact.
+  replace (Nat.max (length pa + 1 + (length pb + 2) - 2) (length pa + 1) + 1 - length pa - 2)%nat with (length pb) by lia.
+  rewrite atneg_app2_1, atneg_app2_2.
+  set (dst := pa ++ ones (length pb) ++ [N; K]).
+  assert (Pdst : pos dst).
+  { unfold dst. apply pos_app; split; [assumption|]. apply pos_app; split; [apply pos_ones|]. repeat constructor; lia. }
+  unfold v_tile, v_reshape. cbn [vshape vat]. rewrite shape_tile_last.
+  assert (Ptile : pos (pa ++ [K * N])) by (apply pos_app; split; [assumption | repeat constructor; nia]).
+  rewrite shape_reshape_ok; [| unfold dst; destruct pa; [destruct (length pb)|]; discriminate | exact Pdst | exact Ptile |].
+  2:{ unfold dst. rewrite !prod_app, prod_ones. cbn [prod]. ring. }
+  cbn [lift rbind]. unfold v_transpose. cbn [vshape vat].
+  rewrite shape_transpose_swap.
+  assert (Hb : np_broadcast2 dst (pb ++ [N; K]) = Some ((pa ++ pb) ++ [N; K])).
+  { unfold dst. rewrite app_assoc. apply np_broadcast2_app_common. now apply np_broadcast2_ones_mid. }
+  assert (Ptr : pos (pb ++ [N; K])) by (apply pos_app; split; [assumption | repeat constructor; lia]).
+  destruct (v_mul_spec A mul
+              (View dst (fun i => fa (tile_idx (pa ++ [K]) (reshape_idx (pa ++ [K * N]) dst i))))
+              (View (pb ++ [N; K]) (fun i => fb (scatter i (swap_last2 (length pb + 2))))) _ Pdst Ptr Hb) as [m [Em [Sm Fm]]].
+  rewrite Em. cbn [lift rbind]. eexists. split; [reflexivity|].
+  assert (Sm' : vshape m = (pa ++ pb ++ [N]) ++ [K]) by (rewrite Sm; now rewrite <- !app_assoc).
+  destruct (v_sum_last1_spec A zero add add_assoc add_0_r m _ K Sm') as [S1 F1].
+  split; [exact S1|]. cbn [vshape vat]. intros i Hi. rewrite F1.
+  rewrite atneg_app1. f_equal. apply map_ext_in. intros k Hk. apply in_zrange in Hk.
+  (* decompose the result index i = ia ++ ib ++ [n] *)
+  destruct (inb_app_inv _ _ _ Hi) as [Hia Hr].
+  set (ia := firstn (length pa) i) in *. set (r := skipn (length pa) i) in *.
+  destruct (inb_app_inv _ _ _ Hr) as [Hib Hn].
+  set (ib := firstn (length pb) r) in *.
+  assert (Er : r = ib ++ skipn (length pb) r) by (symmetry; apply firstn_skipn).
+  inversion Hn as [|n ? t ? Hnb Ht Et]; subst. inversion Ht; subst. rewrite <- Et in Er.
+  assert (Ei : i = ia ++ ib ++ [n]) by (rewrite <- Er; symmetry; apply firstn_skipn).
+  assert (Hfull : inb ((ia ++ ib ++ [n]) ++ [k]) ((pa ++ pb) ++ [N; K])).
+  { rewrite <- !app_assoc. apply inb_app; [assumption|]. apply inb_app; [assumption|]. repeat constructor; lia. }
+  rewrite Ei. destruct (Fm _ Hfull) as [-> _]. cbn [vshape vat].
+  rewrite match_len2 by lia.
+  f_equal.
+  - (* first operand *)
+    f_equal.
+    assert (Eb' : np_broadcast_to_idx dst ((ia ++ ib ++ [n]) ++ [k]) = ia ++ repeat 0 (length pb) ++ [n; k]).
+    { unfold np_broadcast_to_idx.
+      replace (length ((ia ++ ib ++ [n]) ++ [k]) - length dst)%nat with 0%nat.
+      2:{ rewrite (inb_length _ _ Hfull). unfold dst. rewrite !app_length, ones_length. cbn [length]. lia. }
+      cbn [skipn]. unfold dst. rewrite <- !app_assoc. cbn [app].
+      rewrite np_bto_idx_aligned_app by (symmetry; now apply inb_length).
+      rewrite np_bto_idx_aligned_app by (rewrite ones_length; symmetry; now apply inb_length).
+      rewrite (np_bto_idx_aligned_inb _ _ Hia), np_bto_idx_aligned_ones by (now apply inb_length).
+      rewrite np_bto_idx_aligned_inb by (repeat constructor; lia). reflexivity. }
+    rewrite Eb'.
+    rewrite (reshape_idx_spec (pa ++ [K * N]) dst _ (ia ++ [n * K + k])).
+    + rewrite tile_idx_last by assumption. do 2 f_equal.
+      rewrite Z.add_comm, Z.mod_add by lia. apply Z.mod_small; lia.
+    + exact Ptile.
+    + exact Pdst.
+    + unfold dst. apply inb_app; [assumption|]. apply inb_app; [apply inb_zeros | repeat constructor; lia].
+    + apply inb_snoc; [assumption | nia].
+    + unfold dst. rewrite horner_app by (now apply inb_length).
+      rewrite horner_app by (now rewrite ones_length, repeat_length).
+      rewrite horner_zeros. rewrite horner_app by (now apply inb_length). cbn [horner]. ring.
+  - (* second operand *)
+    f_equal.
+    replace ((ia ++ ib ++ [n]) ++ [k]) with (ia ++ (ib ++ [n; k])) by (now rewrite <- !app_assoc).
+    rewrite np_broadcast_to_idx_suffix by (apply inb_app; [assumption | repeat constructor; lia]).
+    rewrite <- (inb_length _ _ Hib) at 1. rewrite scatter_swap.
+    rewrite Er.
+    rewrite app_length. cbn [length]. replace (length ib + 1 - 1)%nat with (length ib) by lia.
+    rewrite firstn_app_exact, skipn_app_exact. reflexivity.
+Qed.
+
+Theorem dot_spec sa sb fa fb v : pos sa -> pos sb ->
+  np_dot A zero add mul sa sb fa fb = Some v ->
+  exists m, dot A zero add mul sa sb fa fb = Ok m /\ agrees m v.
+Proof.
+  intros Pa Pb H. pose proof H as H0. unfold np_dot in H0.
+  destruct (np_dot_shape sa sb) as [s|] eqn:Es; [|discriminate]. clear H0.
+  unfold np_dot_shape in Es.
+  destruct (split_last1 sa) as [[pa K]|] eqn:Ea; [|discriminate].
+  apply split_last1_inv in Ea. subst sa.
+  destruct sb as [|k' [|b1 sb']]; [discriminate| |].
+  - destruct (Z.eqb_spec K k') as [<-|]; [|discriminate]. now apply dot_spec_1d.
+  - destruct (split_last2 (k' :: b1 :: sb')) as [[[pb K'] N]|] eqn:Eb; [|discriminate].
+    apply split_last2_inv in Eb. rewrite Eb in *.
+    destruct (Z.eqb_spec K K') as [<-|]; [|discriminate]. now apply dot_spec_nd.
+Qed.
+
+End Routines.
